@@ -165,20 +165,48 @@ Proof.
   unfold s2. rewrite <- !after_app. reflexivity.
 Qed.
 
+Lemma Forall_wsc_wsq0 l : forallb wsc l = true -> Forall wsq l.
+Proof.
+  rewrite forallb_forall. intros H. apply Forall_forall. intros c Hc. specialize (H _ Hc).
+  unfold wsc in H. unfold wsq. lia.
+Qed.
+
+(* an escaped line break: backslash, line feed, blank lines, leading white space of the next line *)
+Lemma branch_dq_brk k ind c t s : Forall wsq ind -> solid c ->
+  s_rest s = [92; 10] ++ nls k ++ ind ++ c :: t ->
+  flow_ns_branch s true = Ok (Some (after s ([92; 10] ++ nls k ++ ind), repeat [10] k)).
+Proof.
+  intros Hind Hc Hr. cbn [app] in Hr.
+  rewrite (branch_dq_bslash s _ Hr). unfold scan_escape.
+  rewrite (fwd1 s 92 _ ltac:(charfact) Hr). cbn [bind].
+  pose proof (rest_after [92] s _ Hr) as Hr1.
+  rewrite (peek0 _ _ _ Hr1). cbn [bind].
+  replace (assoc 10 ESCAPE_REPLACEMENTS) with (@None (list N)) by reflexivity.
+  replace (assoc 10 ESCAPE_CODES) with (@None N) by reflexivity.
+  replace (mem_N 10 in_scan_flow_scalar_non_spaces_3) with true by reflexivity.
+  rewrite (scan_line_break_lf _ _ Hr1). cbn [bind].
+  pose proof (rest_after [10] _ _ Hr1) as Hr2.
+  unfold scan_flow_scalar_breaks.
+  rewrite (flow_breaks_spec k _ _ [] ind c t Hind Hc Hr2).
+  2:{ unfold fuel_of. rewrite Hr2, app_length, nls_length. lia. }
+  cbn [app]. rewrite <- !after_app. reflexivity.
+Qed.
+
 (* ------------------------------------------------------------------ items of the two styles *)
 
 Definition sq_item (c : N) : qitem :=
-  if c =? 39 then QI [39; 39] [39] QSpecial
-  else if (c =? 34) || (c =? 92) then QI [c] [c] QSpecial
-  else if wsc c then QI [c] [c] QWs
-  else QI [c] [c] QOrd.
+  if c =? 39 then QI [39; 39] [39] QSpecial false
+  else if (c =? 34) || (c =? 92) then QI [c] [c] QSpecial false
+  else if wsc c then QI [c] [c] QWs false
+  else QI [c] [c] QOrd false.
 
 Definition dq_el (d : dq_item) : qitem :=
   match d with
-  | DChr c => if c =? 39 then QI [c] [c] QSpecial
-              else if wsc c then QI [c] [c] QWs else QI [c] [c] QOrd
-  | DEsc c => QI [92; c] (dq_meaning_item (DEsc c)) QSpecial
-  | DHex k ds => QI (92 :: k :: ds) [hexval ds] QSpecial
+  | DChr c => if c =? 39 then QI [c] [c] QSpecial false
+              else if wsc c then QI [c] [c] QWs false else QI [c] [c] QOrd false
+  | DEsc c => QI [92; c] (dq_meaning_item (DEsc c)) QSpecial false
+  | DHex k ds => QI (92 :: k :: ds) [hexval ds] QSpecial false
+  | DBrk k ind => QI ([92; 10] ++ nls k ++ ind) (nls k) QSpecial true
   end.
 
 Lemma solid_39 : solid 39. Proof. unfold solid. repeat split; reflexivity. Qed.
@@ -190,14 +218,14 @@ Proof.
   intros Hc. unfold sq_item, item_ok.
   destruct (c =? 39) eqn:E39; cbn [q_kind q_print q_mean].
   { exists 39, [39]. split; [reflexivity|]. split; [reflexivity|]. split; [apply solid_39|].
-    split; [repeat constructor; charfact|]. intros s rest' Hr. apply (branch_sq_quote s rest' Hr). }
+    split; [repeat constructor; charfact|]. intros s rest' Hr _. eexists. split; [apply (branch_sq_quote s rest' Hr) | reflexivity]. }
   destruct ((c =? 34) || (c =? 92)) eqn:Eq; cbn [q_kind q_print q_mean].
   { assert (Hc' : c = 34 \/ c = 92) by lia.
     exists c, []. split; [reflexivity|].
     split; [destruct Hc'; subst; reflexivity|].
     split; [destruct Hc'; subst; [apply solid_34 | apply solid_92]|].
     split; [repeat constructor; destruct Hc'; subst; charfact|].
-    intros s rest' Hr. apply (branch_sq_lit c s rest' Hc' Hr). }
+    intros s rest' Hr _. eexists. split; [apply (branch_sq_lit c s rest' Hc' Hr) | reflexivity]. }
   destruct (wsc c) eqn:Ew; cbn [q_kind q_print q_mean].
   { exists c. split; [reflexivity|]. split; [reflexivity|]. unfold wsq, wsc in *. lia. }
   exists c. split; [reflexivity|]. split; [reflexivity|]. unfold ordc. split; charfact.
@@ -221,12 +249,12 @@ Qed.
 
 Lemma dq_el_ok d : wf_dq_item d = true -> item_ok true (dq_el d).
 Proof.
-  intros Hwf. destruct d as [c|c|k ds]; unfold item_ok; cbn [dq_el].
+  intros Hwf. destruct d as [c|c|k ds|k ind]; unfold item_ok; cbn [dq_el].
   - cbn [wf_dq_item] in Hwf. apply andb_true_iff in Hwf as [Hwf H92]. apply andb_true_iff in Hwf as [Hc H34].
     destruct (c =? 39) eqn:E39; cbn [q_kind q_print q_mean].
     { apply N.eqb_eq in E39. subst c.
       exists 39, []. split; [reflexivity|]. split; [reflexivity|]. split; [apply solid_39|].
-      split; [repeat constructor; charfact|]. intros s rest' Hr. apply (branch_dq_quote s rest' Hr). }
+      split; [repeat constructor; charfact|]. intros s rest' Hr _. eexists. split; [apply (branch_dq_quote s rest' Hr) | reflexivity]. }
     destruct (wsc c) eqn:Ew; cbn [q_kind q_print q_mean].
     { exists c. split; [reflexivity|]. split; [reflexivity|]. unfold wsq, wsc in *. lia. }
     exists c. split; [reflexivity|]. split; [reflexivity|]. unfold ordc. split; charfact.
@@ -235,12 +263,21 @@ Proof.
     destruct (escape_table c r Ee) as [_ Hc13].
     exists 92, [c]. split; [reflexivity|]. split; [reflexivity|]. split; [apply solid_92|].
     split; [repeat constructor; [charfact | exact Hc13]|].
-    intros s rest' Hr. apply (branch_dq_esc c r s rest' Ee Hr).
+    intros s rest' Hr _. eexists. split; [apply (branch_dq_esc c r s rest' Ee Hr) | reflexivity].
   - destruct (wf_dq_hex k ds Hwf) as (len & H1 & H2 & H3 & H4 & H5 & H6 & H7).
     cbn [q_kind q_print q_mean].
     exists 92, (k :: ds). split; [reflexivity|]. split; [reflexivity|]. split; [apply solid_92|].
     split; [constructor; [charfact|]; constructor; [exact H5 | apply is_hex_nocr; exact H6]|].
-    intros s rest' Hr. apply (branch_dq_hex k ds len s rest' H1 H2 H3 H4 H5 H6 H7 Hr).
+    intros s rest' Hr _. eexists. split; [apply (branch_dq_hex k ds len s rest' H1 H2 H3 H4 H5 H6 H7 Hr) | reflexivity].
+  - (* escaped line break *)
+    cbn [wf_dq_item] in Hwf. cbn [q_kind q_print q_mean q_ns].
+    exists 92, ([10] ++ nls k ++ ind). split; [reflexivity|]. split; [reflexivity|]. split; [apply solid_92|].
+    split.
+    { constructor; [charfact|]. constructor; [charfact|]. apply Forall_app. split; [apply nls_nocr|].
+      apply Forall_wsq_nocr. apply Forall_wsc_wsq0. exact Hwf. }
+    intros s rest' Hr Hsol. destruct (Hsol eq_refl) as (c & t & -> & Hc).
+    exists (repeat [10] k). split; [|apply concat_repeat_lf].
+    apply (branch_dq_brk k ind c t s (Forall_wsc_wsq0 _ Hwf) Hc). rewrite Hr, <- !app_assoc. reflexivity.
 Qed.
 
 (* ------------------------------------------------------------------ lines as element lists *)
@@ -250,12 +287,24 @@ Section Lines.
   Variable double : bool.
   Variable f : A -> qitem.
   Variable wf_a : A -> bool.
-  Variable isws : A -> bool.
+  Variable wf_t : list A -> bool.
+  Variable isws nsol : A -> bool.
   Variable ends_ws starts_ws : list A -> bool.
+
+  (* an item that needs a solid follower is not followed by white space *)
+  Fixpoint adj (t : list A) : bool :=
+    match t with
+    | [] => true
+    | a :: t' => negb (nsol a && match t' with a' :: _ => isws a' | [] => false end) && adj t'
+    end.
+
   Hypothesis H_ok : forall a, wf_a a = true -> item_ok double (f a).
   Hypothesis H_isws : forall a, wf_a a = true -> (q_kind (f a) = QWs <-> isws a = true).
+  Hypothesis H_ns : forall a, q_ns (f a) = nsol a.
+  Hypothesis H_wf_t : forall t, wf_t t = true -> forallb wf_a t = true /\ adj t = true.
   Hypothesis H_ends_nil : ends_ws [] = false.
-  Hypothesis H_ends_cons : forall a t, ends_ws (a :: t) = match t with [] => isws a | _ => ends_ws t end.
+  Hypothesis H_ends_cons : forall a t,
+    ends_ws (a :: t) = match t with [] => isws a || nsol a | _ => ends_ws t end.
   Hypothesis H_starts : forall t, starts_ws t = match t with a :: _ => isws a | [] => false end.
 
   Definition line_els (t : list A) : list qel := map (fun a => QItem (f a)) t.
@@ -264,37 +313,47 @@ Section Lines.
 
   Definition starts_brk (R : list qel) : Prop := match R with QBrk _ _ _ :: _ => True | _ => False end.
 
-  Lemma els_wf_line : forall t R, forallb wf_a t = true -> els_wf double R ->
-    (starts_brk R -> ends_ws t = false) -> els_wf double (line_els t ++ R).
+  Lemma els_wf_line : forall t R, forallb wf_a t = true -> adj t = true -> els_wf double R ->
+    (starts_brk R -> ends_ws t = false) -> (R = [] \/ starts_brk R) ->
+    els_wf double (line_els t ++ R).
   Proof.
-    induction t as [|a t IH]; intros R Hwf HR Hb; [exact HR|].
+    induction t as [|a t IH]; intros R Hwf Hadj HR Hb HRs; [exact HR|].
     cbn [forallb] in Hwf. apply andb_true_iff in Hwf as [Ha Hwf].
+    cbn [adj] in Hadj. apply andb_true_iff in Hadj as [Hadj1 Hadj].
     cbn [line_els map app els_wf]. fold (line_els t).
-    split; [apply H_ok; exact Ha|]. split.
+    split; [apply H_ok; exact Ha|]. split; [|split].
     - intros Hk. apply (H_isws a Ha) in Hk.
       destruct t as [|a' t'].
       + cbn [line_els map app]. destruct R as [|[?|? ? ?] ?]; auto.
-        specialize (Hb I). rewrite H_ends_cons in Hb. congruence.
+        specialize (Hb I). rewrite H_ends_cons, Hk in Hb. discriminate.
       + cbn [line_els map app]. exact I.
-    - apply IH; [exact Hwf | exact HR|]. intros Hs. specialize (Hb Hs). rewrite H_ends_cons in Hb.
-      destruct t; [apply H_ends_nil | exact Hb].
+    - rewrite H_ns. intros Hn. destruct t as [|a' t'].
+      + cbn [line_els map app]. destruct HRs as [->|Hs]; [exact I|].
+        specialize (Hb Hs). rewrite H_ends_cons, Hn, orb_true_r in Hb. discriminate.
+      + cbn [line_els map app next_solid]. rewrite Hn in Hadj1. cbn [andb] in Hadj1.
+        apply negb_true_iff in Hadj1.
+        cbn [forallb] in Hwf. apply andb_true_iff in Hwf as [Ha' _].
+        intros Hk. apply (H_isws a' Ha') in Hk. congruence.
+    - apply IH; [exact Hwf | exact Hadj | exact HR | | exact HRs]. intros Hs. specialize (Hb Hs).
+      rewrite H_ends_cons in Hb. destruct t; [apply H_ends_nil | exact Hb].
   Qed.
 
   Lemma Forall_wsc_wsq l : forallb wsc l = true -> Forall wsq l.
-  Proof.
-    rewrite forallb_forall. intros H. apply Forall_forall. intros c Hc. specialize (H _ Hc).
-    unfold wsc in H. unfold wsq. lia.
-  Qed.
+  Proof. apply Forall_wsc_wsq0. Qed.
+
+  Lemma more_els_head more : more_els more = [] \/ starts_brk (more_els more).
+  Proof. destruct more as [|[[[tws k] ind] t] more]; [left; reflexivity | right; exact I]. Qed.
 
   Lemma els_wf_more : forall more first prev,
-    wf_qmore (forallb wf_a) ends_ws starts_ws is_nil first prev more = true ->
-    forallb wf_a prev = true ->
+    wf_qmore wf_t ends_ws starts_ws is_nil first prev more = true ->
+    wf_t prev = true ->
     els_wf double (line_els prev ++ more_els more) /\
     (first = false -> prev = [] -> more = []).
   Proof.
-    induction more as [|[[[tws k] ind] t] more IH]; intros first prev Hq Hprev.
+    induction more as [|[[[tws k] ind] t] more IH]; intros first prev Hq Hprev;
+      destruct (H_wf_t prev Hprev) as [Hpa Hpadj].
     - cbn [more_els flat_map]. split; [|auto].
-      apply (els_wf_line prev [] Hprev I). intros [].
+      apply (els_wf_line prev [] Hpa Hpadj I); [intros [] | left; reflexivity].
     - cbn [wf_qmore] in Hq.
       apply andb_true_iff in Hq as [Hq Hrec]. apply andb_true_iff in Hq as [Hq Hst].
       apply andb_true_iff in Hq as [Hq Hwt]. apply andb_true_iff in Hq as [Hq Hind].
@@ -302,15 +361,16 @@ Section Lines.
       apply andb_true_iff in Hq as [Hends Hne].
       apply negb_true_iff in Hends. apply negb_true_iff in Hst.
       destruct (IH false t Hrec Hwt) as [IH1 IH2].
+      destruct (H_wf_t t Hwt) as [Hta _].
       split.
       + cbn [more_els flat_map]. fold (more_els more).
-        apply (els_wf_line prev _ Hprev); [|intros _; exact Hends].
+        apply (els_wf_line prev _ Hpa Hpadj); [|intros _; exact Hends | right; exact I].
         cbn [els_wf]. split; [apply Forall_wsc_wsq; exact Htws|]. split; [apply Forall_wsc_wsq; exact Hind|].
         split; [|exact IH1].
         destruct t as [|a t'].
         * cbn [line_els map app]. rewrite (IH2 eq_refl eq_refl). exact I.
         * cbn [line_els map app]. rewrite H_starts in Hst.
-          cbn [forallb] in Hwt. apply andb_true_iff in Hwt as [Ha _].
+          cbn [forallb] in Hta. apply andb_true_iff in Hta as [Ha _].
           intros Hk. apply (H_isws a Ha) in Hk. congruence.
       + intros Hf Hp. subst. cbn [orb is_nil negb] in Hne. discriminate.
   Qed.
@@ -361,13 +421,6 @@ Qed.
 Lemma last_is_cons p a t : last_is p (a :: t) = match t with [] => p a | _ => last_is p t end.
 Proof. destruct t; reflexivity. Qed.
 
-Lemma dq_last_ws_cons d t :
-  dq_last_ws (d :: t) = match t with
-                        | [] => match d with DChr c => wsc c | _ => false end
-                        | _ => dq_last_ws t
-                        end.
-Proof. destruct t; destruct d; reflexivity. Qed.
-
 Definition isws_dq (d : dq_item) : bool := match d with DChr c => wsc c | _ => false end.
 
 Lemma sq_isws c : txtc c = true -> (q_kind (sq_item c) = QWs <-> wsc c = true).
@@ -380,7 +433,7 @@ Qed.
 
 Lemma dq_isws d : wf_dq_item d = true -> (q_kind (dq_el d) = QWs <-> isws_dq d = true).
 Proof.
-  intros _. destruct d as [c|c|k ds]; cbn [dq_el isws_dq q_kind]; try (split; discriminate).
+  intros _. destruct d as [c|c|k ds|k ind]; cbn [dq_el isws_dq q_kind]; try (split; discriminate).
   destruct (c =? 39) eqn:E1; cbn [q_kind]; [split; [discriminate | unfold wsc; lia]|].
   destruct (wsc c); cbn [q_kind]; split; congruence.
 Qed.
@@ -390,20 +443,43 @@ Definition els_single (l0 : str) (more : list (str * nat * str * str)) : list qe
 Definition els_double (l0 : list dq_item) (more : list (str * nat * str * list dq_item)) : list qel :=
   line_els _ dq_el l0 ++ more_els _ dq_el more.
 
+Definition isbrk_dq (d : dq_item) : bool := dq_is_brk d.
+
+Lemma adj_false {A} (isws : A -> bool) (t : list A) : adj A isws (fun _ => false) t = true.
+Proof. induction t as [|a t IH]; [reflexivity|]. cbn [adj andb negb]. exact IH. Qed.
+
 Lemma els_single_wf l0 more : wf_flow (FSingle l0 more) = true -> els_wf false (els_single l0 more).
 Proof.
   cbn [wf_flow]. intros H. apply andb_true_iff in H as [H0 Hm].
-  refine (proj1 (els_wf_more N false sq_item txtc wsc (last_is wsc) (first_is wsc)
-                   sq_item_ok sq_isws eq_refl (last_is_cons wsc) _ more true l0 Hm H0)).
-  intros t. destruct t; reflexivity.
+  refine (proj1 (els_wf_more N false sq_item txtc sq_ok wsc (fun _ => false) (last_is wsc) (first_is wsc)
+                   sq_item_ok sq_isws _ _ eq_refl _ _ more true l0 Hm H0)).
+  - intros c. unfold sq_item. destruct (c =? 39); [reflexivity|].
+    destruct ((c =? 34) || (c =? 92)); [reflexivity|]. destruct (wsc c); reflexivity.
+  - intros t Ht. split; [exact Ht | apply adj_false].
+  - intros a t. rewrite last_is_cons, orb_false_r. reflexivity.
+  - intros t. destruct t; reflexivity.
 Qed.
+
+Lemma dq_adj t : adj dq_item isws_dq dq_is_brk t = dq_brk_ok t.
+Proof.
+  induction t as [|d t IH]; [reflexivity|]. cbn [adj dq_brk_ok]. rewrite IH.
+  destruct t as [|d' t']; reflexivity.
+Qed.
+
+Lemma dq_last_ws_cons' d t :
+  dq_last_ws (d :: t) = match t with [] => isws_dq d || dq_is_brk d | _ => dq_last_ws t end.
+Proof. destruct t; reflexivity. Qed.
 
 Lemma els_double_wf l0 more : wf_flow (FDouble l0 more) = true -> els_wf true (els_double l0 more).
 Proof.
   cbn [wf_flow]. intros H. apply andb_true_iff in H as [H0 Hm].
-  refine (proj1 (els_wf_more dq_item true dq_el wf_dq_item isws_dq dq_last_ws dq_first_ws
-                   dq_el_ok dq_isws eq_refl dq_last_ws_cons _ more true l0 Hm H0)).
-  intros t. destruct t as [|[c|c|k ds] t]; reflexivity.
+  refine (proj1 (els_wf_more dq_item true dq_el wf_dq_item wf_dq_line isws_dq dq_is_brk dq_last_ws dq_first_ws
+                   dq_el_ok dq_isws _ _ eq_refl dq_last_ws_cons' _ more true l0 Hm H0)).
+  - intros [c|c|k ds|k ind]; cbn [dq_el q_ns dq_is_brk]; try reflexivity.
+    destruct (c =? 39); [reflexivity|]. destruct (wsc c); reflexivity.
+  - intros t Ht. unfold wf_dq_line in Ht. apply andb_true_iff in Ht as [H1 H2].
+    split; [exact H1 | rewrite dq_adj; exact H2].
+  - intros t. destruct t as [|[c|c|k ds|k ind] t]; reflexivity.
 Qed.
 
 Lemma print_sq_els t : print_els (line_els _ sq_item t) = print_sq t.
@@ -422,13 +498,13 @@ Qed.
 
 Lemma print_dq_els t : print_els (line_els _ dq_el t) = print_dq t.
 Proof.
-  rewrite print_line_els. unfold print_dq. apply flat_map_ext. intros [c|c|k ds]; cbn [dq_el print_dq_item q_print]; try reflexivity.
+  rewrite print_line_els. unfold print_dq. apply flat_map_ext. intros [c|c|k ds|k ind]; cbn [dq_el print_dq_item q_print]; try reflexivity.
   destruct (c =? 39); [reflexivity|]. destruct (wsc c); reflexivity.
 Qed.
 
 Lemma mean_dq_els t : mean_els (line_els _ dq_el t) = dq_meaning t.
 Proof.
-  rewrite mean_line_els. unfold dq_meaning. apply flat_map_ext. intros [c|c|k ds]; cbn [dq_el dq_meaning_item q_mean]; try reflexivity.
+  rewrite mean_line_els. unfold dq_meaning. apply flat_map_ext. intros [c|c|k ds|k ind]; cbn [dq_el dq_meaning_item q_mean]; try reflexivity.
   destruct (c =? 39); [reflexivity|]. destruct (wsc c); reflexivity.
 Qed.
 
@@ -487,7 +563,7 @@ Qed.
 
 Lemma key_spec_double t : wf_key (KDouble t) = true -> key_spec (KDouble t).
 Proof.
-  cbn [wf_key]. intros H.
+  cbn [wf_key]. intros H. apply andb_true_iff in H as [H _].
   apply (key_spec_quoted true 34 (els_double t [])); [left; split; reflexivity | | |].
   - apply els_double_wf. cbn [wf_flow wf_qmore]. rewrite H. reflexivity.
   - rewrite <- print_double. reflexivity.
